@@ -25,6 +25,12 @@ def main():
         os._exit(2)
     signal.signal(signal.SIGALRM, _late)
     signal.alarm(limit)
+    # second line of defence: a timer THREAD (a signal handler only runs when the main thread gets back to the interpreter; a main thread stuck in
+    # a C-level wait never does)
+    import threading
+    t = threading.Timer(limit + 30, _late)
+    t.daemon = True
+    t.start()
     sys.exit(mod.run(a.tier, seed))
 
 
